@@ -119,12 +119,28 @@ EqBody(j) ==
     PrintS(Tern(Bin("not in", a, ArrE(<<b, StrE("Bob2")>>)), StrE("out"), StrE("in"))), Text("|"),
     DoS(CallE("id", <<Bin("==", NameE("sa"), b), Bin("==", a, a)>>))>>
 
-Picked == (0..(ND1 - 1)) \cup (RBase..(RBase + NR + NR2 + NR3 - 1)) \cup {ND1 + Offset + Stride * m : m \in 0..((ND2 + ND3 - 1 - Offset) \div Stride)}
+(* membership in an inclusive integer range: only its whole steps are members, whichever way it runs; a fraction between its
+   ends, a number past them, a numeral string and a computed needle, under in and not in, from literals and from variables *)
+MemNeedles == << NumE(32), NumE(96), NumE(144), Neg(96), IntE(2), IntE(0), IntE(4), Neg(64), StrE("2"), StrE("1.5"), Bin("/", IntE(5), IntE(2)),
+                 Bin("/", IntE(6), IntE(2)), NameE("x"), NameE("fr"), NullE, BoolE(TRUE) >>
+MemConts == << Grp(Bin("..", IntE(1), IntE(4))), Grp(Bin("..", IntE(4), IntE(1))), Grp(Bin("..", IntE(0), IntE(7))), Grp(Bin("..", Neg(3 * 64), IntE(3))),
+               Grp(Bin("..", IntE(2), IntE(2))), ArrE(<<IntE(1), IntE(3)>>), ArrE(<<NumE(96), IntE(4)>>), NameE("rg"), NameE("arr") >>
+NMN == Len(MemNeedles)
+NR4 == NMN * Len(MemConts)
+MemBody(j) ==
+  LET a == MemNeedles[(j % NMN) + 1]  c == MemConts[(j \div NMN) + 1] IN
+  <<SetS("rg", Bin("..", IntE(1), IntE(4))),
+    PrintS(Tern(Bin("in", a, c), StrE("in"), StrE("out"))), Text("|"), PrintS(Tern(Bin("not in", a, c), StrE("out"), StrE("in"))), Text("|"),
+    IfS(Bin("in", a, c), <<Text("y")>>, <<Text("n")>>, TRUE), DoS(CallE("id", <<Bin("in", a, c), a>>))>>
+
+Picked == (0..(ND1 - 1)) \cup (RBase..(RBase + NR + NR2 + NR3 + NR4 - 1)) \cup {ND1 + Offset + Stride * m : m \in 0..((ND2 + ND3 - 1 - Offset) \div Stride)}
 
 Init == GenInit(v_lvl, v_idx)
 Next == GenNext(v_lvl, v_idx, Picked, 64)
 
 Case(j) ==
+  IF j >= RBase + NR + NR2 + NR3 THEN
+    RenderVec("C05-" \o ToString(j), "member", Tpl1("t", MemBody(j - RBase - NR - NR2 - NR3)), "t", Ctx @@ ("fr" :> Num(160)), [depth |-> 1]) ELSE
   IF j >= RBase + NR + NR2 THEN
     LET q == j - RBase - NR - NR2 IN
     RenderVec("C05-" \o ToString(j), "ordstr", Tpl1("t", OrdBody(q)), "t",
